@@ -169,6 +169,7 @@ BAD = ["", " ", "1.5x", "[1,", "{", "}", "]", "[1, 2", '{"k": }', "{a: 1", "- x"
        '{"cfg": "x"}', '{"cfg": null}', '{"cfg": []}', '{"cfg": {"i": 1}}', '{"subcommand": "zz"}', '{"subcommand": 5}', '{"subcommand": null}', '{"subcommand": ["a"]}', '{"subcommand": "a", "b": {"y": [1]}}',
        '{"a": {"zz": 1}}', '{"a": 5}', '{"b": {"sub2": "zz"}}', '{"b": {"c": 5}}', '{"zz": 1}', '{"g": 5}', '{"g": {"zz": 1}}', '{"dc": 5}', '{"dc": {"inner": 5}}', '{"dc": {"lst": [5]}}',
        '{"m": {"class_path": "SubA", "init_args": {"p": "x"}}}', '{"i": "x"}', '{"i": null}', '{"li": 5}', '{"li+": 5}', '{"li+": [1]}', '{"d": {"k": "x"}}', '{"t": [1]}', '{"__path__": 1}',
+       '{"g": {"h": {"y": .inf}}}', '{"g": {"h": {"y": -.inf}}}', '{"g": {"h": {"y": 1e999}}}', '{"g": {"h": {"y": .nan}}}', '{"i": .inf}', '{"li": [.inf]}', '{"dc": {"inner": {"a": .inf}}}', '{"f": .inf}',
        '{"i": 1, "i": 2}', '[]', '5', 'null', '"str"', "@file", "file:///x", "http://x", "~", "~nouser/x", "1" * 40, "9" * 400, "-", "--", "-x", "--zz", "-1", "1e400", "-.inf", ".nan",
        "\\", "'", '"', "a'b", 'a"b', "é", "😀", "\ud800", "a\x85b", "a b", "a=b", "a:b", "#", "a #b", "`", "$HOME", "${x}", "%s", "{0}", "[[]]", "{{}}", "[{}]", '{"": 1}', '{" ": 1}', '{"a.b": 1}',
        '{"a..b": 1}', '{".a": 1}', '{"a b": 1}', '{"+": 1}', '{"a+": 1}', '{"items": 1}', '{"keys": {"x": 1}}', '{"__dict__": 1}', '{"__class__": 1}']
@@ -192,8 +193,8 @@ BADPAIRS = {
              ("pd", ["@D@/ok.yaml", "@D@/missing"]), ("lp", ['["@D@/missing.yaml"]', "@D@/missing.txt", "5"]), ("n2", ["1", "x"]), ("choice", ["z", ""])],
     "classes": [("m", ["a.b", "os.nonexistent", "os.getcwd", FX + "Unrelated", FX + "CALLS", "", "5", "[]"]), ("m.class_path", ["a.b", "Unrelated", "", "5"]), ("m.init_args", ["5", "[1]", '{"zz": 1}']),
                 ("ms+", ["a.b", "5", '{"class_path": 1}']), ("h.init_args.inner", ["a.b", "5", "Unrelated"]), ("dm.k", ["a.b", "5"]), ("um", ["a.b", "x", "1.5"])],
-    "flat": [("i", ["x", "1.5", "", "[1]"]), ("li", ["x", "{}", "[x]"]), ("d", ["x", "[1]", '{"k": "x"}']), ("t", ["[1]", '[1, "a", 2]', "x"]), ("oe", ["purple", "1"]), ("cfg", ["@D@/missing.yaml", "@D@", "{", "5", "[]"])],
-    "groups": [("dc", ["5", "[1]", '{"zz": 1}', '{"inner": 5}']), ("dc.lst", ["5", "[5]", '[{"zz": 1}]']), ("dc.items", ["5", '{"k": 5}']), ("g.h.y", ["0", "-1", "x"]), ("dc.opt", ["5", '{"zz": 1}'])],
+    "flat": [("i", ["x", "1.5", "", "[1]", "Infinity", "1e999", "NaN"]), ("f", ["x", "[1]"]), ("li", ["[Infinity]", "[1e999]"]), ("li", ["x", "{}", "[x]"]), ("d", ["x", "[1]", '{"k": "x"}']), ("t", ["[1]", '[1, "a", 2]', "x"]), ("oe", ["purple", "1"]), ("cfg", ["@D@/missing.yaml", "@D@", "{", "5", "[]"])],
+    "groups": [("dc", ["5", "[1]", '{"zz": 1}', '{"inner": 5}']), ("dc.lst", ["5", "[5]", '[{"zz": 1}]']), ("dc.items", ["5", '{"k": 5}']), ("g.h.y", ["0", "-1", "x", ".inf", "-.inf", "1e999", ".nan", "1.5", "Infinity", "-Infinity", "NaN"]), ("g.x", ["Infinity", "1e999", "NaN"]), ("dc.inner.a", ["Infinity", "1e999"]), ("dc.opt", ["5", '{"zz": 1}'])],
     "subcommands": [("cfg", ['{"a": 5}', '{"a": null}', "? a", '{"b": {"c": 5}}', '{"subcommand": "zz"}', '{"b": {"sub2": "zz"}}', '{"a": {"m": "a.b"}}'])],
     "links": [("tgt", ["1"]), ("m.init_args.p", ["1"]), ("src", ["x"]), ("hold.inner", ["a.b", "5"])],
 }
@@ -287,8 +288,12 @@ def case_strategy():
         gooddoc = st.tuples(st.lists(st.sampled_from(GOODPAIRS[shape]).flatmap(lambda kv: st.tuples(st.just(kv[0]), st.sampled_from(kv[1]))), min_size=1, max_size=3), st.booleans(),
                             st.sampled_from(["string", "object-parsed", "object-parsed"])).map(
             lambda t: {"shape": shape, "channel": t[2], "eoe": t[1], "input": dict(t[0], **({"req": "r"} if shape == "groups" else {"subcommand": "a"} if shape == "subcommands" else {}))})
+        # ill-typed values aimed at the key they are ill-typed for, as a document / object (JSON-decoded where possible: Infinity, 1e999 ...)
+        baddoc = st.tuples(st.lists(st.sampled_from(BADPAIRS[shape]).flatmap(lambda kv: st.tuples(st.just(kv[0]), st.sampled_from(kv[1]))), min_size=1, max_size=2), st.booleans(),
+                           st.sampled_from(["string", "object-parsed", "object-parsed"])).map(
+            lambda t: {"shape": shape, "channel": t[2], "eoe": t[1], "input": dict(t[0], **({"req": "r"} if shape == "groups" else {"subcommand": "a"} if shape == "subcommands" else {}))})
         path = st.tuples(value_strategy(d), st.booleans()).map(lambda t: {"shape": shape, "channel": "path", "eoe": t[1], "input": t[0]})
-        return st.one_of(argv, argv, argv, argv, env, string, doc, doc, gooddoc, gooddoc, path)
+        return st.one_of(argv, argv, argv, argv, env, string, doc, doc, gooddoc, gooddoc, baddoc, path)
 
     per_shape = {sh: one(sh) for sh in SHAPES}  # built once: strategy construction is the expensive part
     return st.sampled_from(SHAPES).flatmap(lambda sh: per_shape[sh])
